@@ -4,6 +4,12 @@ Correspondence of Model/Window.v (Bucket.get's rounding + each back end's window
 with the three real storages through the real `Bucket.get` / `Bucket.get_eventcount`, and the
 property statement evaluated on the implementation's own outputs on exact integers.
 
+A case is a SCRIPT (harness/c03_hist.py): writes of the storage interface interleaved with window
+queries, over several buckets of several storage instances of one back end that are alive together.
+The model runs the same concrete history per instance (the store models' step functions under
+Model/Window.v, Extract/ExC03.v); the oracle's idea of what a bucket holds comes from the writes
+alone (every written event carries a label of its own), never from a read.
+
   memory, sqlite : model and implementation compared exactly (ids, order, contents, counts, the
                    rounded edges Bucket.get forwards).  The float query parameters of sqlite.py
                    are evaluated inside Coq (Model/WindowFloat.v, harness/floatcases.py) and handed
@@ -20,13 +26,12 @@ import os
 import shutil
 import sys
 import tempfile
-from datetime import timedelta, timezone
 
 from . import common
 from . import c03_hist as hist
 from . import floatcases as fc
 from . import store_hist as sh
-from .c03_hist import OFFS, aware, floor_ms, simple_script, window_queries  # noqa: F401
+from .c03_hist import floor_ms, simple_script, window_queries
 from .common import Check
 from .evutil import BASE
 
